@@ -266,6 +266,10 @@ def snapshot_cases(seed, count, max_side, tag):
                     if psingle:
                         steps.append(dict(op="basins", g=k))
                         steps.append(dict(op="basins", g=0, snap=o["name"]))
+                    # kernels applied on the snapshot graph, sequentially and through its own worker pool
+                    steps.append(dict(op="kernel", g=0, snap=o["name"], dir="breadth", thr=rng.choice([1, 2, 3]),
+                                      minblock=rng.choice([0, 1]), minlevel=rng.choice([0, 2]), init=rng.choice([0, 1])))
+                    steps.append(dict(op="kernel", g=0, snap=o["name"], dir=rng.choice(["any", "depth"]), thr=1))
                     steps.append(dict(op="snapmut", g=0, name=o["name"], call=rng.choice(["update", "mask", "bl"])))
                 if o.get("se", 0):
                     steps.append(dict(op="esnap", g=0, name=o["name"]))
